@@ -616,6 +616,25 @@ def do_ffdh(case):
             return good(labels=labels + ["lead0"])
         return good(nt=False, labels=labels)
     p = a.prime
+    if case["bad"] in ("long", "short"):
+        # RFC 8446 4.2.8.1: the share is exactly as long as the prime
+        if ver < (3, 4):
+            return good(nt=False, labels=labels)
+        nb = (p.bit_length() + 7) // 8
+        yb_i = yb if isinstance(yb, int) else int.from_bytes(yb, "big")
+        if case["bad"] == "long":
+            share = bytearray(b"\x00" + yb_i.to_bytes(nb, "big"))
+        else:
+            share = bytearray((yb_i >> 8).to_bytes(nb - 1, "big"))
+        try:
+            a.calc_shared_key(xa, share)
+        except (TLSIllegalParameterException, TLSDecodeError):
+            return good(labels=labels)
+        except Exception as e:      # noqa
+            return bad("invalid-share-raises-%s:ffdh" % type(e).__name__,
+                       case["bad"], labels=labels)
+        return bad("invalid-share-accepted:ffdh:" + case["bad"], str(g),
+                   labels=labels)
     val = {"zero": 0, "one": 1, "pm1": p - 1, "p": p, "pp1": p + 1,
            "2p": 2 * p, "neg": p + 5}[case["bad"]]
     if ver >= (3, 4):
@@ -933,7 +952,7 @@ def cases(draw, tier):
                                              "custom"])),
                  ver=draw(st.sampled_from([[3, 3], [3, 4]])),
                  bad=draw(st.sampled_from([None, "zero", "one", "pm1", "p",
-                                           "pp1", "2p"])))
+                                           "pp1", "2p", "long", "short"])))
         if c["group"] == "custom":
             c["ver"] = [3, 3]
     elif f == "ecdh":
@@ -983,6 +1002,10 @@ def explicit(tier, seed):
                   "trailing", "empty"):
             yield {"f": "eddsa_sig", "key": name, "mut": m,
                    "ossl": m == "none", "s": seed, "pos": 17, "n": 20}
+    for grp in ("ffdhe2048", "ffdhe3072"):
+        for b in ("long", "short", "zero", "one", "pm1", "p"):
+            yield {"f": "ffdh", "group": grp, "ver": [3, 4], "bad": b,
+                   "s": seed, "pos": 0, "n": 0}
     for grp, vers in (("custom", ([3, 1], [3, 3])),
                       ("ffdhe2048", ([3, 3], [3, 4]))):
         for ver in vers:
